@@ -40,6 +40,10 @@ func apiStormBody(variant string) func() {
 		}
 		a.Start()
 		b.Start()
+		if strings.HasPrefix(variant, "write-vs-") {
+			simrt.RunFor(2900 * time.Millisecond) // the schedules of the set-up are explored by the other variants
+			fakews.SetDialFault(func(string, int) bool { return true }) // and those of a reconnection as well
+		}
 		simrt.Mark()
 		at := func(name string, d time.Duration, f func()) {
 			simrt.Go("app:"+name, func() {
@@ -81,6 +85,30 @@ func apiStormBody(variant string) func() {
 					w.WriteShipMessageWithPayload([]byte(`{"datagram":{"n":1}}`))
 				}
 			})
+		case "write-vs-break", "write-vs-eof":
+			// both applications write while the transport breaks (cut in the middle resp. closed by one end); the writers
+			// become runnable at the instant of the break, after the goroutine that causes it
+			wr := func(n *hubx.Node, peer *hubx.Node, k int) func() {
+				return func() {
+					if w := n.App.Writers[peer.SKI]; w != nil {
+						w.WriteShipMessageWithPayload([]byte(fmt.Sprintf(`{"datagram":{"n":%d}}`, k)))
+					}
+				}
+			}
+			// (timers of one instant fire one after the other, each followed by everything it causes: the writers are
+			// therefore started by the goroutine that breaks the link, not by timers of their own)
+			at("break", 100*time.Millisecond, func() {
+				simrt.Go("app:writeA0", wr(a, b, 1))
+				simrt.Go("app:writeB0", wr(b, a, 2))
+				for _, l := range fakews.Links() {
+					if variant == "write-vs-break" && !l.Client.IsClosed() {
+						l.Client.CutLink()
+					}
+					if variant == "write-vs-eof" && !l.Server.IsClosed() {
+						_ = l.Server.Close()
+					}
+				}
+			})
 		case "unregister-shutdown":
 			at("unreg", 3*time.Second, func() { a.Hub.UnregisterRemoteSKI(b.SKI) })
 			at("shutB", 3*time.Second, func() { b.Hub.Shutdown() })
@@ -118,6 +146,14 @@ func apiStormBody(variant string) func() {
 			})
 			at("req2", 1*time.Second, func() { a.Mdns.RequestMdnsEntries() })
 		}
+		if strings.HasPrefix(variant, "write-vs-") {
+			// schedules are explored while the break is noticed and handled
+			simrt.RunFor(150 * time.Millisecond)
+			simrt.Unmark()
+			simrt.RunFor(2 * time.Second)
+			simrt.Outcome(fmt.Sprintf("links=%d", len(fakews.Links())))
+			return
+		}
 		simrt.RunFor(20 * time.Second)
 		simrt.Outcome(fmt.Sprintf("links=%d", len(fakews.Links())))
 	}
@@ -141,9 +177,22 @@ func c20Scenarios(r *hx.Run) []hx.Scenario {
 		if (strings.HasPrefix(name, "api:") && name != "api:two-peers") || strings.HasPrefix(name, "avahi:") || strings.HasPrefix(name, "converge:swap=true") {
 			dd = 1 // the concurrent-API scenarios get delay bound 1 in both tiers
 		}
-		out = append(out, hx.Scenario{Name: "c20:" + name, Body: withRaces(body), Bounds: simrt.Bounds{Preempt: dd, Fault: 0, Total: dd}, Cfg: cfg})
+		c := cfg
+		if strings.HasPrefix(name, "api:write-vs-") {
+			// preemption bounding among the writers and the pumps that notice the break (a delay only moves on to the next
+			// goroutine in line, which is rarely the writer)
+			c = simrt.Config{MaxSteps: 400000, Races: true, BranchAfterMark: true, DelayBounding: true, BranchOnly: []string{"app:write", "readShipPump"}}
+			// two deviations reach the schedule in which the pump is held back after marking the connection closed and the writer
+			// after it looked at the connection; at this level that costs 48k executions and is left to the thorough tier, the
+			// quick tier has it at the websocket level (harness wsx)
+			dd = 1
+			if r.Thorough() {
+				dd = 2
+			}
+		}
+		out = append(out, hx.Scenario{Name: "c20:" + name, Body: withRaces(body), Bounds: simrt.Bounds{Preempt: dd, Fault: 0, Total: dd}, Cfg: c})
 	}
-	for _, v := range []string{"during-handshake", "detail-storm", "close-storm", "unregister-shutdown", "pending", "mdns-churn", "two-peers"} {
+	for _, v := range []string{"during-handshake", "detail-storm", "close-storm", "unregister-shutdown", "pending", "mdns-churn", "two-peers", "write-vs-break", "write-vs-eof"} {
 		add("api:"+v, apiStormBody(v))
 	}
 	for _, c := range []string{"disconnectA", "unregisterA", "cutLink", "peerEOF", "shutdownA", "writeAfterPeerClose"} {
